@@ -101,6 +101,12 @@ var populated = []event{
 	{Reopen: true},
 }
 
+// dirty is the third initial state: the populated durable database plus one more commit that is
+// NOT followed by a reopen, so under the caching configurations the write cache holds a removal
+// of a durable key, an overwrite, and a nested bucket that was deleted and created again.
+var dirty = append(append([]event{}, populated...),
+	event{Body: []string{"d:00", "p:021", "rm:2", "mk:2", "p:220"}})
+
 func runWorker(r *evid.Run, job string) {
 	rand.Seed(1) // treap priorities of the transaction/cache treaps: fixed per worker
 	f := strings.Split(job, ":")
@@ -113,6 +119,9 @@ func runWorker(r *evid.Run, job string) {
 	e := &explorer{cfg: cfg, depth: depth, shard: shard, nshards: nshards, scratch: scratch, memo: map[string]int{}, fails: map[string]*recorded{}, stop: r.Expired}
 	if len(f) > 4 && f[4] == "populated" {
 		e.init = populated
+	}
+	if len(f) > 4 && f[4] == "dirty-cache" {
+		e.init = dirty
 	}
 	in := e.fresh(nil)
 	var cur *inst // instance executing an operation (for the history of a panic)
@@ -183,22 +192,28 @@ func main() {
 		}
 		r.Finish(evid.Coverage{})
 	}
-	depth := r.Pick(6, 8)
+	// Depth bounds (number of operations) per initial state: quick 5 from the empty database and 3
+	// from the populated and from the dirty-cache state; thorough 8 and 6 (time-capped).
+	depth := r.Pick(5, 8)
 	if s := os.Getenv("VERIF_C16_DEPTH"); s != "" {
 		depth, _ = strconv.Atoi(s)
 	}
-	// second initial state (populated and durable): two operations less (its alphabet is larger)
 	depthPop := depth - 2
-	nshards := 16
-	var jobs []string
-	for _, c := range cacheCfgs {
-		for s := 0; s < nshards; s++ {
-			jobs = append(jobs, fmt.Sprintf("%s:%d:%d:%d:empty", c.Name, s, nshards, depth))
-		}
+	type start struct {
+		name    string
+		depth   int
+		nshards int
 	}
-	for _, c := range cacheCfgs {
-		for s := 0; s < nshards; s++ {
-			jobs = append(jobs, fmt.Sprintf("%s:%d:%d:%d:populated", c.Name, s, nshards, depthPop))
+	starts := []start{{"empty", depth, 16}, {"populated", depthPop, 16}, {"dirty-cache", depthPop, 16}}
+	if depthPop <= 3 {
+		starts[1].nshards, starts[2].nshards = 4, 4
+	}
+	var jobs []string
+	for _, st := range starts {
+		for _, c := range cacheCfgs {
+			for s := 0; s < st.nshards; s++ {
+				jobs = append(jobs, fmt.Sprintf("%s:%d:%d:%d:%s", c.Name, s, st.nshards, st.depth, st.name))
+			}
 		}
 	}
 	scratch := evid.Scratch("c16")
@@ -282,22 +297,23 @@ func main() {
 		cn = append(cn, fmt.Sprintf("%s(maxSize=%d,flushInterval=%d)", c.Name, c.MaxSize, c.Interval))
 	}
 	cov := evid.Coverage{
-		"states":                          tot.TxStates + tot.OuterStates,
-		"transitions":                     tot.Transitions,
-		"traces_validated_against_impl":   tot.TxStates + tot.Commits + tot.Reopens,
-		"transaction_states":              tot.TxStates,
-		"committed_states_expanded":       tot.OuterStates,
-		"fresh_databases":                 tot.Executions,
-		"commits_executed":                tot.Commits,
-		"reopens_executed":                tot.Reopens,
-		"rollbacks_checked_no_trace":      tot.Rollbacks,
-		"failed_updates_checked_no_trace": tot.FailedUpd,
-		"cursor_operations_checked":       tot.CursorChecks,
-		"max_depth_completed":             depth,
-		"cache_configurations":            cn,
-		"exhaustive":                      !capped,
-		"samples":                         samples,
-		"rule": "operations {begin(rw|ro), put/delete on 3 buckets (root, x, x/y) x 3 keys x 2 values, createBucket/deleteBucket x,y, storeBlock (max 2), cursor(bucket), cursor First/Last/Next/Prev/Seek(k)/Delete, commit, rollback, update-returning-error, close+reopen}; all histories up to the depth bound (number of operations), explored per cache configuration from the empty database and (two operations less) from a populated, durable one (all three buckets with keys, committed, closed and reopened); " +
+		"states":                                         tot.TxStates + tot.OuterStates,
+		"transitions":                                    tot.Transitions,
+		"traces_validated_against_impl":                  tot.TxStates + tot.Commits + tot.Reopens,
+		"transaction_states":                             tot.TxStates,
+		"committed_states_expanded":                      tot.OuterStates,
+		"fresh_databases":                                tot.Executions,
+		"commits_executed":                               tot.Commits,
+		"reopens_executed":                               tot.Reopens,
+		"rollbacks_checked_no_trace":                     tot.Rollbacks,
+		"failed_updates_checked_no_trace":                tot.FailedUpd,
+		"cursor_operations_checked":                      tot.CursorChecks,
+		"max_depth_completed":                            depth,
+		"max_depth_from_populated_and_dirty_cache_state": depthPop,
+		"cache_configurations":                           cn,
+		"exhaustive":                                     !capped,
+		"samples":                                        samples,
+		"rule": "operations {begin(rw|ro), put/delete on 3 buckets (root, x, x/y) x 3 keys x 2 values, createBucket/deleteBucket x,y, storeBlock (max 2), cursor(bucket), cursor First/Last/Next/Prev/Seek(k)/Delete, commit, rollback, update-returning-error, close+reopen}; all histories up to the depth bound (number of operations), explored per cache configuration from the empty database and (two operations less) from a populated durable one (all three buckets with keys, committed, closed and reopened) and from a dirty-cache one (the populated database plus one more commit that deletes a durable key, overwrites one and re-creates a nested bucket, not followed by a reopen); " +
 			"transaction states merged on (visible content, pending status of every key and bucket, stored blocks, cursor bucket/position/validity and the cursor's operation history since its last First/Last/Seek); committed states merged on (content, blocks, bucket id counter, cached entries, just-reopened); every merged state is reached by replaying its shortest history on the real database; " +
 			"oracle after every operation: existence of every bucket, Get of every key, ForEach, ForEachBucket, full cursor forward = ForEach + ForEachBucket and backward = mirror image, Writable, blocks, documented error codes of non-mutating bad calls; after commit/rollback/failed Update/reopen the same in a fresh read-only transaction plus ErrTxClosed on every stale handle",
 	}
